@@ -104,6 +104,89 @@ def op_key(op):
         return f"ctor/{fmt_name(op[1], op[2])}/from/{const_class(op)}/{op[3]}:{Fraction(op[4], op[5])}"
     if t == "eqc":
         return f"eqc/{fmt_name(op[1], op[2])}/{const_class(op)}/{op[3]}:{Fraction(op[4], op[5])}"
+    if t == "arithc":
+        _, o, kind, A, B, side, num, den = op
+        c = Fraction(num, den)
+        if side == "L":
+            return f"{o}c/L/{fmt_name(kind, A)}={c},{fmt_name(kind, B)}"
+        return f"{o}c/R/{fmt_name(kind, A)},{fmt_name(kind, B)}={c}"
+    if t == "resize_s":
+        # same case identity as the plain resize (so the listed findings of resize apply); the call shape and the
+        # format of the second object are carried by the level part of the key, see shape_level()
+        return op_key(plain(op)[0])
+    raise ValueError(op)
+
+
+def plain(op, a=0, b=0):
+    """the plain operation (and operand values) a derived operation has to agree with:
+    arithc  = arith / eq with one operand given as a constant;  resize_s = resize written in another call shape"""
+    t = op[0]
+    if t == "arithc":
+        _, o, kind, A, B, side, num, den = op
+        c = Fraction(num, den)
+        p = ("eq", kind, A, B) if o == "eq" else ("arith", o, kind, A, B)
+        if side == "L":
+            return p, ref.encode(kfmt(kind, A), c), b
+        return p, a, ref.encode(kfmt(kind, B), c)
+    if t == "resize_s":
+        _, shape, kind, A, B, T, rs, os_ = op
+        return ("resize", kind, A, T, rs, os_), a, 0
+    return op, a, b
+
+
+def shape_level(level, op):
+    """level part of the key of a resize_s operation, e.g. py@held~S[0:0]"""
+    return f"{level}@{op[1]}~{fmt_name(op[2], op[4])}"
+
+
+def format_constants(kind, fmt):
+    """the constants used as compile-time operands: minimum, maximum, and -1 LSB (SFixed) / +1 LSB and 0 (UFixed)"""
+    lo, hi = ref.bounds(kfmt(kind, fmt))
+    step = ref.pow2(fmt[1])
+    cs = [lo, hi, -step if kind == "S" else step]
+    out = []
+    for c in cs:
+        if ref.representable(kfmt(kind, fmt), c) and c not in out:
+            out.append(c)
+    return out
+
+
+def const_ops(kind, A, B):
+    """every binary operator with a compile-time constant on the left (format A) resp. on the right (format B)"""
+    ops = []
+    for o in ("add", "sub", "mul", "eq"):
+        if o == "eq" and A != B:
+            continue  # comparison of different formats is rejected (see pair_ops / eq)
+        for c in format_constants(kind, A):
+            ops.append(("arithc", o, kind, A, B, "L", c.numerator, c.denominator))
+        for c in format_constants(kind, B):
+            ops.append(("arithc", o, kind, A, B, "R", c.numerator, c.denominator))
+    return ops
+
+
+SHAPES = ("held", "heldsub", "nestl", "nestr")
+
+
+def shape_ops(kind, A, B, T):
+    return [("resize_s", sh, kind, A, B, T, rs, os_) for sh in SHAPES for rs in ROUNDS for os_ in OVERFLOWS]
+
+
+def shape_code(op, i="", xa="xa", xb="xb"):
+    """(statements before, expression) of a resize written in call shape op[1]:
+    held     qa = xa.resize; qb = xb.resize; qa(L, R, rs, os)        helper of xa obtained before xb.resize is accessed
+    heldsub  same, called through the subscript form qa[L:R](rs, os)
+    nestl    xa.resize(xb.resize(<own format of xb>).left() + k, R, rs, os)    another object's resize inside the arguments
+    nestr    xa.resize(L, xb.resize(<own format of xb>).right() + k, rs, os)"""
+    _, shape, kind, A, B, T, rs, os_ = op
+    L, R = T
+    st = f"RS.{rs}, OS.{os_}"
+    if shape in ("held", "heldsub"):
+        pre = [f"qa{i} = {xa}.resize", f"qb{i} = {xb}.resize"]
+        return pre, (f"qa{i}({L}, {R}, {st})" if shape == "held" else f"qa{i}[{L}:{R}]({st})")
+    if shape == "nestl":
+        return [], f"{xa}.resize({xb}.resize({B[0]}, {B[1]}).left() + ({L - B[0]}), {R}, {st})"
+    if shape == "nestr":
+        return [], f"{xa}.resize({L}, {xb}.resize({B[0]}, {B[1]}).right() + ({R - B[1]}), {st})"
     raise ValueError(op)
 
 
@@ -148,6 +231,10 @@ def op_inputs(op):
         return 0, 0
     if t == "eqc":
         return width(op[2]), 0
+    if t == "arithc":
+        return (0, width(op[4])) if op[5] == "L" else (width(op[3]), 0)
+    if t == "resize_s":
+        return width(op[3]), width(op[4])
     raise ValueError(op)
 
 
@@ -170,6 +257,8 @@ def const_of(op):
 
 def must_accept(op, a=0, b=0):
     t = op[0]
+    if t in ("arithc", "resize_s"):
+        return must_accept(plain(op)[0])
     if t in ("arith", "resize"):
         return True  # "of any formats", "to any target format"
     if t == "eq":
@@ -185,6 +274,8 @@ def must_accept(op, a=0, b=0):
 
 def check_result(op, a, b, got):
     t = op[0]
+    if t in ("arithc", "resize_s"):
+        return check_result(*plain(op, a, b), got)
     if t == "arith":
         _, o, kind, A, B = op
         if got[0] != "fixed":
@@ -344,6 +435,26 @@ def py_function(op):
         if vk == "S":
             return lambda a, b: T(Signed[n](ref.to_signed(b, n)))
         return lambda a, b: T(Unsigned[n](b))
+    if t == "arithc":
+        _, o, kind, A, B, side, num, den = op
+        import operator
+        f = {"add": operator.add, "sub": operator.sub, "mul": operator.mul, "eq": operator.eq}[o]
+        c = float(Fraction(num, den))
+        assert Fraction(c) == Fraction(num, den)
+        if side == "L":
+            ca = fixed_cls(kind, A)(c)
+            return lambda a, b: f(ca, fixed_const(kind, B, b))
+        cb = fixed_cls(kind, B)(c)
+        return lambda a, b: f(fixed_const(kind, A, a), cb)
+    if t == "resize_s":
+        _, shape, kind, A, B, T, rs, os_ = op
+        pre, expr = shape_code(op)
+        src = "def f(xa, xb):\n" + "".join(f"    {l}\n" for l in pre) + f"    return {expr}\n"
+        std = _std()
+        ns = {"std": std, "RS": std.FixedRoundStyle, "OS": std.FixedOverflowStyle}
+        exec(compile(src, "<c19_shape>", "exec"), ns)
+        fn = ns["f"]
+        return lambda a, b: fn(fixed_const(kind, A, a), fixed_const(kind, B, b))
     if t in ("ctor_c", "eqc"):
         _, kind, A, form, num, den = op
         c = Fraction(num, den)
@@ -373,9 +484,17 @@ def py_run(op, a, b):
 # compiled level: wrapper entity source
 # ------------------------------------------------------------------------------------------------
 
-def hw_expr(op):
+def hw_expr(op, i=""):
     """(expression text, needs_to_bits)"""
     t = op[0]
+    if t == "arithc":
+        _, o, kind, A, B, side, num, den = op
+        sym = {"add": "+", "sub": "-", "mul": "*", "eq": "=="}[o]
+        lit = repr(float(Fraction(num, den)))
+        e = f"({type_expr(kind, A)}({lit}) {sym} xb)" if side == "L" else f"(xa {sym} {type_expr(kind, B)}({lit}))"
+        return e, o != "eq"
+    if t == "resize_s":
+        return shape_code(op, i)[1], True
     if t == "arith":
         sym = {"add": "+", "sub": "-", "mul": "*"}[op[1]]
         return f"(xa {sym} xb)", True
@@ -402,6 +521,10 @@ def hw_expr(op):
 
 def hw_second_type(op):
     """format of xb (None: b is used raw or not at all)"""
+    if op[0] == "arithc":
+        return (op[2], op[4]) if op[5] == "L" else None
+    if op[0] == "resize_s":
+        return (op[2], op[4])
     if op[0] == "arith":
         return (op[2], op[4])
     if op[0] == "eq":
@@ -411,6 +534,10 @@ def hw_second_type(op):
 
 def hw_first_type(op):
     t = op[0]
+    if t == "arithc":
+        return None if op[5] == "L" else (op[2], op[3])
+    if t == "resize_s":
+        return (op[2], op[3])
     if t == "arith":
         return (op[2], op[3])
     if t in ("resize", "eq", "ctor_f", "eqc"):
@@ -555,7 +682,9 @@ def entity_source(ops, out_widths, wa, wb, source="value"):
         lines += ["        @std.concurrent", "        def logic():"]
     lines += [ind + x for x in pre]
     for i, op in enumerate(ops):
-        e, bits = hw_expr(op)
+        if op[0] == "resize_s":
+            lines += [ind + x for x in shape_code(op, i)[0]]
+        e, bits = hw_expr(op, i)
         lines.append(f"{ind}self.o{i} <<= " + (f"std.to_bits({e})" if bits else e))
     return "\n".join(lines) + "\n", io
 
@@ -579,6 +708,8 @@ def entity_source(ops, out_widths, wa, wb, source="value"):
 
 def input_class(op, a, b):
     t = op[0]
+    if t in ("arithc", "resize_s"):
+        return input_class(*plain(op, a, b))
     if t == "resize":
         _, kind, A, B, rs, _os = op
         fs, ft = kfmt(kind, A), kfmt(kind, B)
